@@ -74,7 +74,7 @@ End HistoryB.
 Definition ex_mk (id : N) (prev : bytes) (bl : N) (blroot : bytes) (v : N) : txhdr :=
   {| h_id := id; h_prevalh := prev; h_ts := 1700000000 + id; h_version := v; h_md := None;
      h_nentries := id; h_eh := repeat id 32; h_bltxid := bl; h_blroot := blroot |}.
-Definition ex_h1 := ex_mk 1 zeros32 0 zeros32 0.
+Definition ex_h1 := ex_mk 1 (sha256 []) 0 zeros32 0.
 Definition ex_h2 := ex_mk 2 (alh_v sha256 ex_h1) 0 zeros32 1.
 Definition ex_h3 := ex_mk 3 (alh_v sha256 ex_h2) 1 (mth sha256 [alh_v sha256 ex_h1]) 1.
 Definition ex_h4 := ex_mk 4 (alh_v sha256 ex_h3) 1 (mth sha256 [alh_v sha256 ex_h1]) 0.
